@@ -29,7 +29,7 @@ def c13_jobs(tier):
         dict(family='tinyball45', d=8, n=60, cls='Ellipsoid', npm=9, depth=2, seeds=(0, 1)),
     ]
     if tier == 'thorough':
-        jobs = [dict(j, depth=14, seeds=(0, 1, 2)) for j in jobs]
+        jobs = [dict(j, depth=16, seeds=(0, 1, 2, 3)) for j in jobs]
         for j in jobs:
             if j['family'] == 'blob' and j['n'] == 20:
                 j['depth'] = 7
